@@ -486,10 +486,13 @@ func buildMarkdown(toks []regTok, st *caseState, baseParser []parser.Option) gol
 	_, realBlocks := defaultBlockInfo()
 	_, realInlines := defaultInlineInfo()
 	realPTs := parser.DefaultParagraphTransformers()
+	shared := map[[2]int]interface{}{} // the SAME object for every further registration with the same category and id
 	for i := range toks {
 		t := &toks[i]
 		var v interface{}
 		switch {
+		case shared[[2]int{int(t.cat), t.id}] != nil && !t.invalid():
+			v = shared[[2]int{int(t.cat), t.id}]
 		case t.invalid():
 			v = &notAComponent{t.id}
 		case t.cat == 'B':
@@ -522,6 +525,9 @@ func buildMarkdown(toks []regTok, st *caseState, baseParser []parser.Option) gol
 				p.inner = html.NewRenderer()
 			}
 			v = p
+		}
+		if !t.invalid() {
+			shared[[2]int{int(t.cat), t.id}] = v
 		}
 		pv := util.Prioritized(v, t.prio)
 		var po parser.Option
@@ -611,8 +617,63 @@ func containsByte(bs []byte, c int) bool {
 	return false
 }
 
+// dupAware: ONE object registered several times (same category and id, different priorities) is consulted once per
+// registration; the n-th consultation of it within one group is attributed to its n-th registration in priority order
+// (for every other object the entry is returned unchanged).
+func dupAware(g []regEntry, toks []regTok) []regEntry {
+	regs := map[[2]int][]*regTok{}
+	for i := range toks {
+		t := &toks[i]
+		if !t.invalid() {
+			k := [2]int{int(t.cat), t.id}
+			regs[k] = append(regs[k], t)
+		}
+	}
+	dup := false
+	for k, l := range regs {
+		if len(l) > 1 {
+			dup = true
+			sort.SliceStable(l, func(i, j int) bool { return l[i].prio < l[j].prio })
+			regs[k] = l
+		}
+	}
+	if !dup {
+		return g
+	}
+	out := make([]regEntry, len(g))
+	seen := map[[2]int]int{}
+	for i, e := range g {
+		out[i] = e
+		k := [2]int{int(e.tok.cat), e.tok.id}
+		if l := regs[k]; len(l) > 1 {
+			n := seen[k]
+			seen[k]++
+			if n < len(l) {
+				out[i].tok = l[n]
+			} else {
+				out[i].tok = l[len(l)-1]
+			}
+		}
+	}
+	return out
+}
+
+func sameReg(e *regTok, t *regTok, toks []regTok) bool {
+	n := 0
+	for i := range toks {
+		if toks[i].cat == t.cat && toks[i].id == t.id && !toks[i].invalid() {
+			n++
+		}
+	}
+	if n > 1 {
+		return e == t
+	}
+	return e.id == t.id
+}
+
 // one consultation of block parsers: entries in call order
 func oracleBlockGroup(g []regEntry, toks []regTok, real bool, fails *[]OracleFail) {
+	g = dupAware(g, toks)
 	for i := range g {
 		e := g[i]
 		if i > 0 && keyLess(blockKey(e.tok), blockKey(g[i-1].tok)) {
@@ -641,7 +702,7 @@ func oracleBlockGroup(g []regEntry, toks []regTok, real bool, fails *[]OracleFai
 		}
 		found := false
 		for _, e := range g {
-			if e.tok.id == t.id {
+			if sameReg(e.tok, t, toks) {
 				found = true
 			}
 		}
@@ -653,6 +714,7 @@ func oracleBlockGroup(g []regEntry, toks []regTok, real bool, fails *[]OracleFai
 }
 
 func oracleSeq(cat string, what string, g []regEntry, toks []regTok, catb byte, needAllBefore bool, fails *[]OracleFail) {
+	g = dupAware(g, toks)
 	for i := range g {
 		if i > 0 && g[i].tok.prio < g[i-1].tok.prio {
 			*fails = append(*fails, OracleFail{"C20", cat + "-order", fmt.Sprintf("%s: order %s is not ascending in priority (%d has %d, %d has %d)", what, dotsOf(g), g[i-1].tok.id, g[i-1].tok.prio, g[i].tok.id, g[i].tok.prio)})
@@ -672,7 +734,7 @@ func oracleSeq(cat string, what string, g []regEntry, toks []regTok, catb byte, 
 		}
 		found := false
 		for _, e := range g {
-			if e.tok.id == t.id {
+			if sameReg(e.tok, t, toks) {
 				found = true
 			}
 		}
@@ -748,14 +810,20 @@ func oracleC20(st *caseState, toks []regTok, real bool) []OracleFail {
 	}
 	// renderers: the function called for a kind belongs to a registrant with the smallest priority value
 	for _, e := range rs {
+		eprio := e.tok.prio // an object registered several times counts with its smallest priority value
+		for i := range toks {
+			if toks[i].cat == 'R' && !toks[i].invalid() && toks[i].id == e.tok.id && toks[i].prio < eprio {
+				eprio = toks[i].prio
+			}
+		}
 		for i := range toks {
 			t := &toks[i]
-			if t.cat != 'R' || t.invalid() || t.prio >= e.tok.prio {
+			if t.cat != 'R' || t.invalid() || t.prio >= eprio || t.id == e.tok.id { // t.id == e.tok.id: the same object registered again
 				continue
 			}
 			for _, k := range t.kinds() {
 				if k == e.kind {
-					fails = append(fails, OracleFail{"C20", "renderer-min", fmt.Sprintf("kind %d rendered by %d (priority %d) although %d registered it with the smaller priority %d", e.kind, e.tok.id, e.tok.prio, t.id, t.prio)})
+					fails = append(fails, OracleFail{"C20", "renderer-min", fmt.Sprintf("kind %d rendered by %d (priority %d) although %d registered it with the smaller priority %d", e.kind, e.tok.id, eprio, t.id, t.prio)})
 				}
 			}
 		}
@@ -1554,6 +1622,32 @@ func genRegistry(tier string, rng *RNG, emit func(Case)) {
 				ps[0], ps[len(ps)-1] = ps[len(ps)-1], ps[0]
 			}
 			emit(Case{Op: "render", Args: []string{regsArg(ps), trees[ca%2], "_"}})
+		}
+	}
+
+	// ----- ONE object registered twice with different priorities, a competitor in between (the registration that
+	// counts is the one with the smaller priority value, whatever the registration order and the carriers) -----
+	for ord := 0; ord < 6; ord++ {
+		for ca := 0; ca < 27; ca++ {
+			cs := []byte{carriers[ca%3], carriers[ca/3%3], carriers[ca/9%3]}
+			arr := func(lo, mid, hi regTok) []regTok {
+				lo.carrier, mid.carrier, hi.carrier = cs[0], cs[1], cs[2]
+				three := []regTok{lo, mid, hi}
+				p := permutations(3)[ord]
+				return []regTok{three[p[0]], three[p[1]], three[p[2]]}
+			}
+			// block parsers: object 1 at 150 and 350, competitor 2 at 250, same trigger; everybody declines / the object accepts
+			for _, sc := range []map[int]string{{109: "2222"}, {109: "2222", 1: "0101"}, {109: "2222", 2: "0101"}} {
+				emit(Case{Op: "block", Args: []string{regsArg(withBuiltins('B', arr(regTok{'B', 1, 150, 'c', "2a", "11"}, regTok{'B', 2, 250, 'c', "2a", "11"}, regTok{'B', 1, 350, 'c', "2a", "11"}))), linesArg(blockDocs[0]), scriptArg(sc)}})
+			}
+			emit(Case{Op: "inline", Args: []string{regsArg(withBuiltins('I', arr(regTok{'I', 1, 150, 'c', "2a", "-"}, regTok{'I', 2, 250, 'c', "2a", "-"}, regTok{'I', 1, 350, 'c', "2a", "-"}))), "0", hx([]byte(inlineDocs[0])), scriptArg(map[int]string{2: "0101010101"})}})
+			for _, cat := range []byte{'P', 'A'} {
+				toks := append(append(builtinToks('B'), builtinToks('P')...), arr(regTok{cat, 1, 50, 'c', "-", "-"}, regTok{cat, 2, 150, 'c', "-", "-"}, regTok{cat, 1, 250, 'c', "-", "-"})...)
+				emit(Case{Op: "block", Args: []string{regsArg(toks), linesArg(tdoc), scriptArg(map[int]string{109: "222"})}})
+			}
+			// renderers: object 1 registers kinds E and X at 500 and at 100, competitor 2 at 300
+			ks := fmt.Sprintf("%d.%d", kE, kX)
+			emit(Case{Op: "render", Args: []string{regsArg(append([]regTok{html}, arr(regTok{'R', 1, 100, 'c', ks, "-"}, regTok{'R', 2, 300, 'c', ks, "-"}, regTok{'R', 1, 500, 'c', ks, "-"})...)), trees[0], "_"}})
 		}
 	}
 
